@@ -2,7 +2,7 @@
    Standard-library behaviour enters only through the [oracles] record; the laws a theorem
    relies on are explicit premises ([codec_laws], [hash_len_law], [strconv_law]). *)
 From Coq Require Import Floats ZifyBool ZifyNat ZifyN.
-From GenqlV Require Import Base.Prelude Base.Fmt Base.Value Model.Funcs.
+From GenqlV Require Import Base.Prelude Base.Fmt Base.Value Model.Funcs Model.FuncsInst.
 Local Open Scope string_scope.
 
 (* ------------------------------------------------------------------ *)
@@ -495,3 +495,364 @@ Section Repaired.
       (let! f := text_or_empty a in let! t := text_or_empty b in Ok (VArr [VStr f; VStr t])).
   Proof. intros a b. reflexivity. Qed.
 End Repaired.
+
+(* ------------------------------------------------------------------ *)
+(* the repaired code never panics, whatever the arguments               *)
+(* ------------------------------------------------------------------ *)
+
+Section NoPanic.
+  Variable O : oracles.
+  Variable C : fctx.
+
+  Lemma non_null_rep : forall T (r : res (option T)) p,
+    non_null Repaired r = Ok p -> exists t, p = Some t.
+  Proof.
+    intros T r p H. unfold non_null in H.
+    destruct r as [[t|]| | |]; simpl in H; inversion H; eauto.
+  Qed.
+
+  Lemma non_null_np : forall W T (r : res (option T)), r <> Panic -> non_null W r <> Panic.
+  Proof.
+    intros W T r H. unfold non_null. destruct r as [[t|]| | |]; try congruence.
+    destruct (repaired W); discriminate.
+  Qed.
+
+  Lemma as_arr_np : forall v, as_arr v <> Panic.  Proof. destruct v; discriminate. Qed.
+  Lemma as_num_np : forall v, as_num v <> Panic.  Proof. destruct v; discriminate. Qed.
+  Lemma as_str_np : forall v, as_str v <> Panic.  Proof. destruct v; discriminate. Qed.
+  Lemma as_bool_np : forall v, as_bool v <> Panic. Proof. destruct v; discriminate. Qed.
+  Lemma as_any_np : forall v, as_any v <> Panic.  Proof. destruct v; discriminate. Qed.
+  Lemma as_map_np : forall v, as_map v <> Panic.
+  Proof. destruct v; try discriminate. simpl. destruct (is_tagged_obj kvs); discriminate. Qed.
+
+  Lemma to_float64_np : forall v, to_float64 O v <> Panic.
+  Proof. intros v. unfold to_float64. apply bind_np; [apply sprint_np | intros; apply lift_np]. Qed.
+
+  Lemma to_int_np : forall v, to_int O v <> Panic.
+  Proof. intros v. unfold to_int. apply bind_np; [apply sprint_np | intros; apply lift_np]. Qed.
+
+  Ltac np :=
+    repeat first
+    [ discriminate
+    | apply lift_np | apply sprint_np | apply to_float64_np | apply to_int_np
+    | apply non_null_np
+    | apply as_arr_np | apply as_num_np | apply as_str_np | apply as_bool_np | apply as_any_np | apply as_map_np
+    | match goal with
+      | H : non_null Repaired _ = Ok ?p |- context [deref ?p] =>
+          let t := fresh "t" in destruct (non_null_rep _ _ _ H) as [t ->]; clear H; cbn [deref]
+      | |- bind ?r _ <> Panic => apply bind_np; [ | intros ? ? ]
+      | |- (if ?c then _ else _) <> Panic => destruct c eqn:?
+      | |- (match ?x with _ => _ end) <> Panic => destruct x eqn:?
+      end ].
+
+  Lemma num_fold_np : forall step l acc an, num_fold O step acc an l <> Panic.
+  Proof.
+    induction l as [|x l IH]; intros acc an; simpl; [discriminate|].
+    destruct x; try apply IH;
+      (apply bind_np; [apply to_float64_np | intros; apply IH]).
+  Qed.
+
+  Lemma concat_loop_np : forall args buf, concat_loop buf args <> Panic.
+  Proof.
+    induction args as [|a r IH]; intros buf; simpl; [discriminate|].
+    apply bind_np; [apply sprint_np | intros; apply IH].
+  Qed.
+
+  Lemma aggr_np : forall init step fin args, aggr_func Repaired O init step fin args <> Panic.
+  Proof.
+    intros init step fin args. unfold aggr_func.
+    destruct args as [|a0 [|a1 rest]]; cbn [guard List.length Nat.ltb Nat.leb bind arg nth_error]; try discriminate.
+    np. apply num_fold_np.
+  Qed.
+
+  Lemma index_first_np : forall l, Nat.ltb 0 (List.length l) = true -> index_at l 0 <> Panic.
+  Proof. intros [|a l] H; [discriminate H | discriminate]. Qed.
+
+  Lemma first_np : forall args, first_func args <> Panic.
+  Proof.
+    intros args. unfold first_func.
+    destruct args as [|a0 [|a1 rest]]; cbn [guard List.length Nat.ltb Nat.leb bind arg nth_error]; try discriminate.
+    destruct a0; cbn; try discriminate.
+    destruct l; cbn; discriminate.
+  Qed.
+
+  Lemma last_np : forall args, last_func args <> Panic.
+  Proof.
+    intros args. unfold last_func.
+    destruct args as [|a0 [|a1 rest]]; cbn [guard List.length Nat.ltb Nat.leb bind arg nth_error]; try discriminate.
+    destruct a0; cbn [as_arr bind deref]; try discriminate.
+    destruct (0 <? Z.of_nat (List.length l))%Z eqn:E; [|discriminate].
+    rewrite index_at_ok by lia. discriminate.
+  Qed.
+
+  Lemma elementat_np : forall args, elementat_func Repaired args <> Panic.
+  Proof.
+    intros args. unfold elementat_func.
+    destruct args as [|a0 [|a1 [|a2 rest]]]; cbn [guard List.length Nat.ltb Nat.leb bind arg nth_error]; try discriminate.
+    destruct a0; cbn [as_arr bind deref]; try discriminate.
+    destruct a1; cbn [as_num non_null repaired bind deref]; try discriminate.
+    destruct ((0 <=? go_int_of_float f)%Z && (go_int_of_float f <? Z.of_nat (List.length l))%Z) eqn:E; [|discriminate].
+    rewrite index_at_ok by lia. discriminate.
+  Qed.
+
+  Lemma builtin_np : forall b args, call_builtin Repaired O C b args <> Panic.
+  Proof.
+    intros b args. destruct b; cbn [call_builtin].
+    - apply aggr_np.
+    - apply aggr_np.
+    - apply aggr_np.
+    - apply aggr_np.
+    - (* count *) unfold count_func. destruct args; [discriminate|]. np.
+    - (* concat *) unfold concat_func. apply bind_np; [apply concat_loop_np | discriminate].
+    - apply first_np.
+    - apply last_np.
+    - apply elementat_np.
+    - (* defaultkey *) unfold defaultkey_func.
+      destruct args as [|a0 [|a1 rest]]; cbn [guard List.length Nat.ltb Nat.leb bind arg nth_error]; try discriminate.
+      destruct a0; cbn [as_map bind deref]; try discriminate.
+      destruct (is_tagged_obj kvs); cbn [bind deref]; [discriminate|].
+      destruct kvs as [|[k v] [|kv2 r]]; discriminate.
+    - (* changetype *) unfold changetype_func.
+      destruct args as [|a0 [|a1 [|a2 rest]]]; cbn [guard List.length Nat.ltb Nat.leb bind arg nth_error]; try discriminate.
+      np.
+    - (* unwind *) unfold unwind_func.
+      destruct args as [|a0 [|a1 rest]]; cbn [guard List.length Nat.ltb Nat.leb bind arg nth_error]; try discriminate.
+      destruct a0; cbn; discriminate.
+    - (* if *) unfold if_func.
+      destruct args as [|a0 [|a1 [|a2 [|a3 rest]]]]; cbn [guard List.length Nat.ltb Nat.leb bind arg nth_error]; try discriminate.
+      np.
+    - (* fuse *) unfold fuse_func.
+      destruct args as [|a0 [|a1 rest]]; cbn [guard List.length Nat.ltb Nat.leb bind arg nth_error]; try discriminate.
+      np.
+    - (* daterange *) unfold daterange_func.
+      destruct args as [|a0 [|a1 [|a2 rest]]]; cbn [guard List.length Nat.ltb Nat.leb bind arg nth_error repaired]; try discriminate.
+      np.
+    - (* constant *) unfold constant_func.
+      destruct args as [|a0 [|a1 rest]]; cbn [guard List.length Nat.ltb Nat.leb bind arg nth_error]; try discriminate.
+      np.
+    - (* getvar *) unfold getvar_func.
+      destruct args as [|a0 [|a1 rest]]; cbn [guard List.length Nat.ltb Nat.leb bind arg nth_error]; try discriminate.
+      np.
+    - (* setvar *) unfold setvar_func.
+      destruct args as [|a0 [|a1 [|a2 rest]]]; cbn [guard List.length Nat.ltb Nat.leb bind arg nth_error repaired]; try discriminate.
+      np.
+    - (* raise_when *) unfold raise_when_func.
+      destruct args as [|a0 [|a1 [|a2 rest]]]; cbn [guard List.length Nat.ltb Nat.leb bind arg nth_error]; try discriminate.
+      np.
+    - (* raise *) unfold raise_func.
+      destruct (guard 1 args) as [[]| | |] eqn:E; cbn [bind]; try discriminate.
+      destruct (guard_inv _ _ _ E) as [[? ?]|[? ?]]; discriminate.
+    - (* report_when *) unfold report_when_func.
+      destruct args as [|a0 [|a1 [|a2 rest]]]; cbn [guard List.length Nat.ltb Nat.leb bind arg nth_error]; try discriminate.
+      np.
+    - (* report *) unfold report_func.
+      destruct (guard 1 args) as [[]| | |] eqn:E; cbn [bind]; try discriminate.
+      destruct (guard_inv _ _ _ E) as [[? ?]|[? ?]]; discriminate.
+    - (* hash *) unfold hash_func.
+      destruct args as [|a0 [|a1 [|a2 rest]]]; cbn [guard List.length Nat.ltb Nat.leb bind arg nth_error]; try discriminate.
+      np.
+    - (* encode *) unfold encode_func.
+      destruct args as [|a0 [|a1 [|a2 rest]]]; cbn [guard List.length Nat.ltb Nat.leb bind arg nth_error]; try discriminate.
+      np.
+    - (* decode *) unfold decode_func.
+      destruct args as [|a0 [|a1 [|a2 rest]]]; cbn [guard List.length Nat.ltb Nat.leb bind arg nth_error]; try discriminate.
+      np.
+    - (* timestamp *) unfold timestamp_func.
+      destruct (guard 0 args) as [[]| | |] eqn:E; cbn [bind]; try discriminate.
+      destruct (guard_inv _ _ _ E) as [[? ?]|[? ?]]; discriminate.
+    - (* array *) discriminate.
+    - (* to_lower *) unfold to_lower_func, case_func.
+      destruct args as [|a0 [|a1 rest]]; cbn [guard List.length Nat.ltb Nat.leb bind arg nth_error]; try discriminate.
+      np.
+    - (* to_upper *) unfold to_upper_func, case_func.
+      destruct args as [|a0 [|a1 rest]]; cbn [guard List.length Nat.ltb Nat.leb bind arg nth_error]; try discriminate.
+      np.
+  Qed.
+
+  Lemma call_np : forall name args, call Repaired O C name args <> Panic.
+  Proof.
+    intros name args. unfold call. destruct (lookup_builtin (ascii_lower name)); [apply builtin_np | discriminate].
+  Qed.
+End NoPanic.
+
+(* ------------------------------------------------------------------ *)
+(* expressions: nested calls                                            *)
+(* ------------------------------------------------------------------ *)
+
+Section fexpr_ind'.
+  Variable P : fexpr -> Prop.
+  Hypothesis Hlit : forall v, P (Lit v).
+  Hypothesis Hcall : forall name args, Forall P args -> P (Call name args).
+  Fixpoint fexpr_ind' (e : fexpr) : P e :=
+    match e with
+    | Lit v => Hlit v
+    | Call name args =>
+        Hcall name args ((fix go (l : list fexpr) : Forall P l :=
+                            match l with [] => Forall_nil _ | x :: r => Forall_cons _ (fexpr_ind' x) (go r) end) args)
+    end.
+End fexpr_ind'.
+
+Section Eval.
+  Variable V : variant.
+  Variable O : oracles.
+  Variable C : fctx.
+
+  (* FuncArgReader *)
+  Fixpoint eval_args (l : list fexpr) : res (list value) :=
+    match l with
+    | [] => Ok []
+    | a :: r => let! v := eval V O C a in let! vs := eval_args r in Ok (v :: vs)
+    end.
+
+  Lemma eval_call : forall name args,
+    eval V O C (Call name args) = (let! vs := eval_args args in call V O C name vs).
+  Proof.
+    intros name args. cbn [eval].
+    match goal with |- bind ?x _ = bind ?y _ => assert (E : x = y); [|rewrite E; reflexivity] end.
+    induction args as [|a r IH]; [reflexivity|]. cbn [eval_args]. rewrite <- IH. reflexivity.
+  Qed.
+
+  Lemma eval_args_lits : forall vs, eval_args (map Lit vs) = Ok vs.
+  Proof. induction vs as [|v r IH]; [reflexivity|]. cbn [map eval_args eval bind]. rewrite IH. reflexivity. Qed.
+
+  Lemma eval_call_lits : forall name vs, eval V O C (Call name (map Lit vs)) = call V O C name vs.
+  Proof. intros. rewrite eval_call, eval_args_lits. reflexivity. Qed.
+
+  (* f2(f1(literals...), literal) *)
+  Lemma eval_nested : forall n2 n1 vs w,
+    eval V O C (Call n2 [Call n1 (map Lit vs); Lit w]) =
+    (let! s1 := call V O C n1 vs in call V O C n2 [s1; w]).
+  Proof.
+    intros. rewrite eval_call. cbn [eval_args]. rewrite eval_call_lits.
+    destruct (call V O C n1 vs); reflexivity.
+  Qed.
+End Eval.
+
+Lemma eval_np : forall O C e, eval Repaired O C e <> Panic.
+Proof.
+  intros O C e. induction e as [v|name args IH] using fexpr_ind'; [discriminate|].
+  rewrite eval_call. apply bind_np.
+  - induction IH as [|a r Ha _ IHr]; cbn [eval_args]; [discriminate|].
+    apply bind_np; [exact Ha | intros]. apply bind_np; [exact IHr | discriminate].
+  - intros. apply call_np.
+Qed.
+
+(* DECODE(ENCODE(v, b), b) = v as one expression, function names in any letter case *)
+Lemma eval_decode_encode : forall V O C v b bl nd ne,
+  codec_laws O -> scalar v -> str_lower O b = OOk bl -> In bl ["base64"; "base32"; "hex"] ->
+  ascii_lower nd = "decode" -> ascii_lower ne = "encode" ->
+  eval V O C (Call nd [Call ne [Lit v; Lit (VStr b)]; Lit (VStr b)]) = Ok v.
+Proof.
+  intros V O C v b bl nd ne L Hv Hb Hin Hd He.
+  destruct (decode_encode V O C v b bl L Hv Hb Hin) as [s [H1 H2]].
+  rewrite eval_call. cbn [eval_args].
+  change [Lit v; Lit (VStr b)] with (map Lit [v; VStr b]). rewrite eval_call_lits.
+  rewrite (call_name V O C ne BEncode) by (rewrite He; reflexivity).
+  rewrite H1. cbn [bind eval].
+  rewrite (call_name V O C nd BDecode) by (rewrite Hd; reflexivity).
+  exact H2.
+Qed.
+
+(* ------------------------------------------------------------------ *)
+(* registry                                                             *)
+(* ------------------------------------------------------------------ *)
+
+Lemma registry_covered : forall name imm, In (name, imm) registry -> exists b, lookup_builtin name = Some b.
+Proof.
+  intros name imm H. unfold registry, registry_table in H. cbn [map fst snd] in H.
+  repeat (destruct H as [H|H]; [inversion H; subst; eexists; reflexivity|]).
+  destruct H.
+Qed.
+
+Lemma arity_call : forall V O C name b n args,
+  lookup_builtin (ascii_lower name) = Some b -> arity b = Some n -> List.length args <> n ->
+  call V O C name args = Err.
+Proof.
+  intros V O C name b n args Hl Ha Hn. rewrite (call_name V O C name b args Hl).
+  apply arity_builtin with n; assumption.
+Qed.
+
+(* ------------------------------------------------------------------ *)
+(* refutations                                                          *)
+(* ------------------------------------------------------------------ *)
+
+(* D42: CONCAT does not skip NULL arguments (pinned by TestConcatFunc/With_Nil_Values) *)
+Lemma concat_null_refuted : forall V O C,
+  exists args ts,
+    sequence_opt (map fmt_gv (filter non_null_b args)) = Some ts /\
+    call_builtin V O C BConcat args <> Ok (VStr (join ts)).
+Proof.
+  intros V O C. exists [VStr "a"; VNull], ["a"]. split; [reflexivity|]. vm_compute. discriminate.
+Qed.
+
+(* D41: in the code as pinned, ELEMENTAT with a negative index, and a NULL where a typed
+   argument is dereferenced, panic inside the engine *)
+Lemma pinned_refuted : forall O C,
+  call Pinned O C "elementat" [VArr [VNum 1%float]; VNum (-1)%float] = Panic /\
+  call Pinned O C "if" [VNull; VNum 1%float; VNum 2%float] = Panic /\
+  call Pinned O C "to_upper" [VNull] = Panic /\
+  call Pinned O C "sum" [VNull] = Panic /\
+  call Pinned O {| consts := None; vars := None |} "setvar" [VStr "a"; VNum 1%float] = Panic.
+Proof. intros O C. vm_compute. repeat split. Qed.
+
+(* ------------------------------------------------------------------ *)
+(* complements used by Properties/C18.v                                 *)
+(* ------------------------------------------------------------------ *)
+
+Lemma base_of_none : forall bl, ~ In bl ["base64"; "base32"; "hex"] -> base_of bl = None.
+Proof.
+  intros bl H. unfold base_of.
+  assert (Hne : forall k, In k ["base64"; "base32"; "hex"] -> String.eqb bl k = false).
+  { intros k Hk. apply String.eqb_neq. intro E. subst k. auto. }
+  rewrite !Hne by (simpl; tauto). reflexivity.
+Qed.
+
+(* HASH(v, alg) is hex(H_alg(gob(v))) whatever the variant and the query context *)
+Lemma hash_value : forall V O C v a al alg buf,
+  gob_ser O v = OOk buf -> str_lower O a = OOk al -> hash_alg_of al = Some alg ->
+  call_builtin V O C BHash [v; VStr a] = Ok (VStr (hex_enc (hash_sum O alg buf))).
+Proof.
+  intros V O C v a al alg buf Hs Ha Halg. simpl. unfold hash_func.
+  rewrite guard_ok by reflexivity. simpl. rewrite Hs. simpl. rewrite Ha. simpl. rewrite Halg. reflexivity.
+Qed.
+
+Lemma hash_pure_len : forall O v a al alg,
+  codec_laws O -> hash_len_law O -> scalar v -> str_lower O a = OOk al -> hash_alg_of al = Some alg ->
+  exists h, String.length h = 2 * digest_len alg /\
+            forall V C, call_builtin V O C BHash [v; VStr a] = Ok (VStr h).
+Proof.
+  intros O v a al alg [G _] L Hv Ha Halg. destruct (G v Hv) as [buf [Hs _]].
+  exists (hex_enc (hash_sum O alg buf)). split.
+  - rewrite hex_enc_length, L. reflexivity.
+  - intros V C. apply hash_value with al; assumption.
+Qed.
+
+(* the symbolic base64/base32 codecs of the executable instance (Model/FuncsInst.v) satisfy
+   their part of [codec_laws] — the premise is not vacuous *)
+Lemma prefix_app : forall p s, String.prefix p (p ++ s) = true.
+Proof.
+  induction p as [|c p IH]; intros s; simpl; [destruct s; reflexivity|].
+  destruct (ascii_dec c c); [apply IH | congruence].
+Qed.
+
+Lemma substring_all : forall s, String.substring 0 (String.length s) s = s.
+Proof. induction s as [|c s IH]; simpl; [reflexivity | rewrite IH; reflexivity]. Qed.
+
+Lemma substring_skip : forall p s n, String.substring (String.length p) n (p ++ s) = String.substring 0 n s.
+Proof. induction p as [|c p IH]; intros s n; simpl; [reflexivity | apply IH]. Qed.
+
+Lemma app_length_str : forall p s, String.length (p ++ s) = String.length p + String.length s.
+Proof. induction p as [|c p IH]; intros s; simpl; [reflexivity | rewrite IH; reflexivity]. Qed.
+
+Lemma strip_prefix_app : forall p s, FuncsInst.strip_prefix p (p ++ s) = Some s.
+Proof.
+  intros p s. unfold FuncsInst.strip_prefix. rewrite prefix_app, substring_skip, app_length_str.
+  replace (String.length p + String.length s - String.length p) with (String.length s) by lia.
+  rewrite substring_all. reflexivity.
+Qed.
+
+Lemma sym_codec_roundtrip : forall m b, FuncsInst.sym_dec m (FuncsInst.sym_enc m b) = OOk b.
+Proof.
+  intros m b. unfold FuncsInst.sym_dec, FuncsInst.sym_enc.
+  rewrite strip_prefix_app, hex_dec_enc. reflexivity.
+Qed.
